@@ -345,3 +345,57 @@ func (p *Program) FileOf(pos token.Pos) *ast.File {
 	}
 	return nil
 }
+
+// vtaLostSites lists dynamic call sites, in first-party functions reachable from main on the
+// VTA graph, that VTA resolves to no callee while CHA resolves them to a first-party one.
+func (p *Program) vtaLostSites() ([]string, int) {
+	vta, cha := p.VTA(), p.CHA()
+	var roots []*ssa.Function
+	for _, fn := range p.SrcFuncs {
+		if fn.Name() == "main" && fn.Pkg != nil && fn.Pkg.Pkg.Name() == "main" {
+			roots = append(roots, fn)
+		}
+	}
+	reach := p.reachableFuncs(roots, false)
+	var lost []string
+	n := 0
+	for _, fn := range p.SrcFuncs {
+		if !reach[fn] {
+			continue
+		}
+		for _, c := range p.callsIn(fn) {
+			if c.Common().StaticCallee() != nil {
+				continue
+			}
+			if _, isBuiltin := c.Common().Value.(*ssa.Builtin); isBuiltin {
+				continue
+			}
+			// only sites whose callee must be first-party code: an invoke on an interface
+			// declared here, or a call of a func value whose type is not a named type of
+			// another module (context.CancelFunc, error.Error: bodies outside the program)
+			vt := c.Common().Value.Type()
+			if nt, ok := vt.(*types.Named); ok {
+				if nt.Obj().Pkg() == nil || p.SSAPkg[nt.Obj().Pkg().Path()] == nil {
+					continue
+				}
+			} else if _, isSig := vt.Underlying().(*types.Signature); !isSig {
+				continue
+			}
+			n++
+			if len(p.Callees(vta, c)) > 0 {
+				continue
+			}
+			fp := false
+			for _, t := range p.Callees(cha, c) {
+				if p.isFirstParty(t) {
+					fp = true
+				}
+			}
+			if fp {
+				lost = append(lost, fnName(fn)+" at "+p.instrPos(c))
+			}
+		}
+	}
+	sort.Strings(lost)
+	return lost, n
+}
